@@ -6,11 +6,17 @@ REPO = os.environ.get("VERIF_REPO", "/repo")
 sys.path.insert(0, os.path.join(VERIF, "lib"))
 
 VERIF_FAIL_PAT = re.compile(
-    r"(postcondition not satisfied|precondition not satisfied|invariant not satisfied|assertion failed|"
+    r"(postcondition not satisfied|precondition not satisfied|precondition not met|invariant not satisfied|assertion failed|"
     r"possible arithmetic (underflow|overflow)|possible (bit shift|division by zero)|fails to satisfy `callee\.requires|"
     r"decreases not satisfied|could not prove termination|unable to prove assertion|assertion not satisfied|"
     r"recursive call|cannot prove|might fail|loop invariant|possible .*out of (range|bounds))", re.I)
 RLIMIT_PAT = re.compile(r"(resource limit|rlimit|timed? ?out)", re.I)
+# diagnostics that mean "the generated text is outside Verus' subset / does not type-check": never a violation
+UNSUPPORTED_PAT = re.compile(
+    r"(not supported|unsupported|does not (yet |currently )?support|not yet (supported|implemented)|not implemented|internal error|"
+    r"cannot find|mismatched types|expected .* found|unresolved|no method named|no field|cannot borrow|cannot move|borrow of moved|"
+    r"is not in scope|trait bound|lifetime|cannot infer|duplicate specification|must have a decreases clause|"
+    r"Could not automatically infer triggers|assume_specification|in exec mode|with mode (exec|spec|proof)|mode error|expected mode)", re.I)
 
 
 def sh(cmd, **kw):
@@ -142,7 +148,7 @@ def classify(diags, attr):
         if RLIMIT_PAT.search(msg):
             rl.append(d)
             continue
-        if not VERIF_FAIL_PAT.search(msg):
+        if d.get("code") is not None or (UNSUPPORTED_PAT.search(msg) and not VERIF_FAIL_PAT.search(msg)):
             compile_errors.append(d)
             continue
         labels, fn, where = [], None, None
